@@ -32,12 +32,6 @@ def crosscheck(ctx, rule, live_q, ref_file, ref_name, cls=None, what="",
         rf = X.spec_method(P, ref_file, ref_name, cls)
     else:
         rf = X.spec_function(m, ref_file, ref_name)
-    from zcstatic import absint as A
-    lk = dict(kw.get("live_kw") or {})
-    rk = dict(kw.get("ref_kw") or {})
-    lk.setdefault("loop_policy", A.carried_state_policy(lf.node))
-    rk.setdefault("loop_policy", A.carried_state_policy(rf.node))
-    kw = dict(kw, live_kw=lk, ref_kw=rk)
     r = X.compare(P, lf, rf, **kw)
     verdict(ctx.run, rule, lf, what or ref_name, r, m)
     return r
